@@ -103,6 +103,8 @@ def run(P, R, tier):
         _prd.check_return_deps(P, R, k_, pattern=r'^(data|machine|log_weighted_likelihoods)$')
     from ..engines import proto as _prs
     _prs.check_reduction_siblings(P, R, ['gmm'])
+    from ..engines import cover as _cvl
+    _cvl.check_lse_functions(P, R, ['gmm'])
 
 
 EXPLANATION += " Also (POL): the return value of log_weighted_likelihood is expanded into signed monomials; the log-weights enter with +1, the cached normaliser with -1/2, the quadratic form as -1/2 (x - mu)^2 / var (x^2 and mu^2 negative, the cross term positive, the variance in the denominator)."
